@@ -66,7 +66,7 @@ RR = lr1.Grammar('rr1', ['op', 'sop'], ['!', '*', '+'], 'op', [('sop', ['!']), (
 
 def kernels(wd, tier='quick'):
     P = {g.name: g for g in families.g_prec() + families.g_dir() + families.g_err()}
-    names = ['p_ll', 'p_rr', 'lalr', 'p_else', 'p_perm', 'ersr'] if tier == 'quick' else ['p_ll', 'p_rr', 'p_lr', 'p_eq', 'p_eqr', 'p_none', 'p_def', 'p_neg', 'p_expl', 'p_else', 'p_perm', 'interl', 'ersr', 'er1', 'er2', 'lalr', 'etf', 'd2', 'nullrun']
+    names = ['p_ll', 'p_rr', 'lalr', 'p_else', 'p_perm', 'p_perm2', 'ersr'] if tier == 'quick' else ['p_ll', 'p_rr', 'p_lr', 'p_eq', 'p_eqr', 'p_none', 'p_def', 'p_neg', 'p_expl', 'p_else', 'p_perm', 'p_perm2', 'interl', 'ersr', 'er1', 'er2', 'lalr', 'etf', 'd2', 'nullrun']
     gs = [P[n] for n in names] + [RR, SRR]
     ks = []
     for g in gs:
